@@ -282,13 +282,16 @@ type shardDoc struct {
 func (r *Recorder) Write() {
 	r.mu.Lock()
 	defer r.mu.Unlock()
-	sigs := make([]string, 0, len(r.known))
-	for s := range r.known {
+	sigs := make([]string, 0, len(r.findings))
+	for s, kf := range r.findings {
 		sigs = append(sigs, s)
+		r.knownWhat[s] = kf.What
 	}
 	sort.Strings(sigs)
-	for _, s := range sigs {
-		fmt.Printf("KNOWN-FINDING: property=%s %s (signature %s, %d generated cases hit it and were excluded)\n", r.ID, r.knownWhat[s], s, r.known[s])
+	if ReplayFile() == "" || len(r.known) > 0 {
+		for _, s := range sigs {
+			fmt.Printf("KNOWN-FINDING: property=%s %s (signature %s, reproduced %d times in this run)\n", r.ID, r.knownWhat[s], s, r.known[s])
+		}
 	}
 	hs := make([]string, 0, len(r.nontrivial))
 	for h := range r.nontrivial {
